@@ -300,6 +300,19 @@ def batch_facts(prog: Program, r: DispatcherRoles) -> Tuple[Dict[str, Any], List
             single_calls.append((n, c))
     facts['batch_call_sites'] = len(batch_calls)
     facts['single_call_sites'] = len(single_calls)
+    # handler calls hidden in closures defined inside dispatch: results collected by side effect follow completion order
+    for g in f.nested.values():
+        for x in walk_own(g.node):
+            if isinstance(x, ast.Call) and dotted(x.func) == f'self.{r.slot}':
+                collects = [y for y in walk_own(g.node) if isinstance(y, ast.Call) and isinstance(y.func, ast.Attribute)
+                            and y.func.attr in ('append', 'add', 'insert', 'appendleft', 'put_nowait', 'put')]
+                if collects:
+                    problems.append(('ORDER-MAP', 'element results collected by side effect from concurrently running closures', x.lineno,
+                                     f'`{norm(collects[0])[:70]}` inside the closure `{g.name}` stores each element\'s response when that element '
+                                     f'FINISHES: when the closures run concurrently the response array follows completion order, not request order'))
+                else:
+                    problems.append(('PER-ELEMENT-ONCE', 'element handler wrapped in a closure', x.lineno,
+                                     f'the per-element handler is called from the nested function `{g.name}`; the batch mapping cannot be followed'))
     for x in walk_own(f.node):
         if isinstance(x, ast.Call) and dotted(x.func) in (f'self.{r.handle_request.name}', f'self.{r.handle_rpc_request.name}',
                                                          f'self.{r.handle_rpc_method.name}'):
@@ -725,6 +738,21 @@ def eh_fold_facts(prog: Program, interp: Interp, r: DispatcherRoles) -> Tuple[Di
         if not loops:
             problems.append(('EH-FOLD', 'error handlers are never run', f.node.lineno,
                              f'{short(f.qualname)} does not iterate the configured error handlers'))
+            return facts, problems
+        # several loops: the per-code lookup must not be evaluated after an earlier loop has replaced the error
+        for h2 in loops:
+            it_nodes = [m for m in cfg.nodes if m.kind == 'iter' and m.ast is h2.ast.iter]
+            keys = [x for x in ast.walk(h2.ast.iter) if isinstance(x, ast.Attribute) and x.attr == 'code']
+            for kx in keys:
+                ev = dotted(kx.value)
+                for m in cfg.stmt_nodes():
+                    if ev in assigned_names(m) and it_nodes and it_nodes[0].id in cfg.reachable(m) and m.handler is None:
+                        problems.append(('EH-FOLD', 'per-code handlers selected by the replaced error\'s code', h2.line,
+                                         f'`{norm(h2.ast.iter)[:80]}` is evaluated after `{norm(m.ast)[:60]}` (line {m.line}) may have replaced '
+                                         f'`{ev}`: the handlers registered for the RAISED error\'s code are skipped and those of the replacement '
+                                         f'code run instead'))
+                        break
+        if problems:
             return facts, problems
         raise AnalysisError(f'{f.qualname}: {len(loops)} loops over error handlers (recognised form: one loop over chain(generic, per-code))')
     head = loops[0]
